@@ -232,8 +232,9 @@ def schema_pool():
 
 # ------------------------------------------------------------------------------------ limits
 
-def nested(depth, width=0):
-    return b'<r>' + b'<a>' * (depth - 1) + b'<b/>' * width + b'</a>' * (depth - 1) + b'</r>'
+def nested(depth, width=0, noise=b''):
+    """depth levels of nesting; `noise` (comments / PIs / text) is inserted after every start tag."""
+    return b'<r>' + noise + (b'<a>' + noise) * (depth - 1) + b'<b/>' * width + b'</a>' * (depth - 1) + b'</r>'
 
 
 LIM_XSD = ('<xs:schema xmlns:xs="http://www.w3.org/2001/XMLSchema"><xs:complexType name="T"><xs:sequence><xs:element name="a" '
@@ -254,10 +255,11 @@ def judge_limits(st):
         for lim in (5, 50, 200):
             limits.MAX_XML_DEPTH = lim
             for depth, expect in ((lim - 1, 'processed'), (lim, 'either'), (lim + 1, 'exceeded')):
-                for lazy in (False, True):
+                for lazy, noise in ((False, b''), (True, b''), (False, b'<!--c-->'), (False, b'<?p x?>'),
+                                    (False, b'<!--c--><?p x?><!--d-->'), (True, b'<!--c--><?p?>')):
                     st.case()
-                    st.nt(('depth', lim, depth, lazy))
-                    data = nested(depth)
+                    st.nt(('depth', lim, depth, lazy, noise))
+                    data = nested(depth, 0, noise)
                     try:
                         v = s.is_valid(XMLResource(io.BytesIO(data), lazy=lazy))
                         got = 'processed'
@@ -266,7 +268,7 @@ def judge_limits(st):
                     except Exception as e:
                         got = 'other:' + type(e).__name__
                     if expect != 'either' and got != expect or got.startswith('other'):
-                        out.append(rec('depth_limit', {'limit': lim, 'depth': depth, 'lazy': lazy}, expect, got))
+                        out.append(rec('depth_limit', {'limit': lim, 'depth': depth, 'lazy': lazy, 'noise': noise.decode()}, expect, got))
         limits.MAX_XML_DEPTH = old_d
         for lim in (1, 3, 10, 1000):
             limits.MAX_XML_ELEMENTS = lim
@@ -275,7 +277,7 @@ def judge_limits(st):
                     continue
                 st.case()
                 st.nt(('elements', lim, count))
-                data = b'<r>' + b'<b/>' * (count - 1) + b'</r>'
+                data = b'<r>' + (b'<b/><!--c--><?p?>' if lim % 2 else b'<b/>') * (count - 1) + b'</r>'
                 try:
                     s.is_valid(XMLResource(io.BytesIO(data)))
                     got = 'processed'
@@ -301,8 +303,40 @@ def judge_limits(st):
 
 # ------------------------------------------------------------------------------------ protocol
 
+HUGE = [b'PT' + b'9' * 40 + b'S', b'PT1.' + b'9' * 60 + b'S', b'P' + b'9' * 40 + b'D', b'P' + b'9' * 30 + b'Y',
+        b'-P' + b'9' * 25 + b'M', b'PT' + b'9' * 35 + b'H', b'9' * 30 + b'-01-01', b'9' * 25 + b'-01-01T00:00:00',
+        b'12:00:00.' + b'9' * 60, b'2000-01-01T00:00:00.' + b'1' * 80, b'1e' + b'9' * 30, b'0.' + b'0' * 400 + b'1',
+        b'--12-31+14:00', b'A' * 4001, b'0' * 10000, b'-' + b'0' * 5000 + b'1', b'1.' + b'0' * 5000]
+TYPED_XSD = ('<xs:schema xmlns:xs="http://www.w3.org/2001/XMLSchema">'
+             + ''.join('<xs:simpleType name="R_%s"><xs:restriction base="xs:%s"><xs:%s value="%s"/></xs:restriction></xs:simpleType>'
+                       '<xs:element name="r_%s" type="R_%s"/>' % (n, b, f, v, n, n) for n, b, f, v in (
+                           ('dur', 'duration', 'maxInclusive', 'P1Y'), ('dtd', 'dayTimeDuration', 'minInclusive', 'PT1S'),
+                           ('dt', 'dateTime', 'minInclusive', '2000-01-01T00:00:00'), ('d', 'date', 'maxExclusive', '2100-01-01'),
+                           ('dec', 'decimal', 'totalDigits', '5'), ('int', 'integer', 'maxInclusive', '10'),
+                           ('dbl', 'double', 'maxInclusive', '1E10'), ('gy', 'gYear', 'minInclusive', '1999'),
+                           ('t', 'time', 'maxInclusive', '12:00:00')))
+             + '</xs:schema>')
+
+
+def judge_typed(st):
+    """Every built-in type and a few restricted types against huge / odd lexical forms."""
+    from vf.checks import c02
+    out = []
+    for ver in ('10', '11'):
+        s = c02.base_schema(ver)
+        for t in c02.types_for(ver):
+            for text in NUMS + HUGE:
+                out += judge_bytes('builtin:' + ver, s, b'<e_%s>%s</e_%s>' % (t.encode(), text, t.encode()), st)
+        if ver == '11':
+            s2 = xmlschema.XMLSchema11(TYPED_XSD)
+            for n in ('dur', 'dtd', 'dt', 'd', 'dec', 'int', 'dbl', 'gy', 't'):
+                for text in NUMS + HUGE:
+                    out += judge_bytes('restricted', s2, b'<r_%s>%s</r_%s>' % (n.encode(), text, n.encode()), st)
+    return out
+
+
 def shards(tier, seed):
-    out = [('mut', p, k, tier, seed) for p in range(6) for k in range(2)] + [('limits',), ('deep',)]
+    out = [('mut', p, k, tier, seed) for p in range(6) for k in range(2)] + [('limits',), ('deep',), ('typed',)]
     if tier == 'thorough':
         out += [('atheris', k, seed) for k in range(3)]
     return out
@@ -322,6 +356,11 @@ def run_shard(desc):
         for depth in (100, 300, 600, 990):
             for r in judge_bytes('limits', s, nested(depth), st):
                 core.report(st, PROPERTY, r)
+        return st
+    if desc[0] == 'typed':
+        for r in judge_typed(st):
+            core.report(st, PROPERTY, r)
+        st.sample({'typed values': 'every built-in type + 9 restricted types x %d huge / odd lexical forms' % len(NUMS + HUGE)})
         return st
     if desc[0] == 'atheris':
         return run_atheris(desc[1], desc[2], st)
@@ -383,6 +422,11 @@ def replay(record):
     data = nested(600) if inp['data'] == 'DEEP600' else inp['data'].encode('latin-1')
     if inp['schema'] == 'limits':
         s = xmlschema.XMLSchema10(LIM_XSD)
+    elif inp['schema'].startswith('builtin:'):
+        from vf.checks import c02
+        s = c02.base_schema(inp['schema'][8:])
+    elif inp['schema'] == 'restricted':
+        s = xmlschema.XMLSchema11(TYPED_XSD)
     else:
         s = [x for x in schema_pool() if x[0] == inp['schema']][0][1]
     return [r for r in judge_bytes(inp['schema'], s, data, st) if r['kind'] == record['kind']
